@@ -202,7 +202,7 @@ func checkC20(c *Ctx) error {
 	for _, u := range units {
 		files := unitFiles(u)
 		if !u.Accepted {
-			c.Violate("generator-config-rejected:"+sigWords(rejectReason(u)), fmt.Sprintf("unit %s: %s", u.ID, rejectReason(u)), files)
+			rejected(c, rejectReason(u), fmt.Sprintf("unit %s: %s", u.ID, rejectReason(u)), files)
 			continue
 		}
 		if !u.Compiled {
@@ -210,7 +210,7 @@ func checkC20(c *Ctx) error {
 			continue
 		}
 		if len(u.Results) == 0 {
-			c.Violate("probe:"+sigWords(u.ProbeErr), fmt.Sprintf("unit %s: %s", u.ID, u.ProbeErr), files)
+			c.Side("C01", "probe:"+sigWords(u.ProbeErr), fmt.Sprintf("unit %s: %s", u.ID, u.ProbeErr), files)
 			continue
 		}
 		pl := plans[u.ID]
